@@ -399,16 +399,17 @@ def recover_cek(alg: str, enc: str, h: dict, ek: bytes, key: RefKey, sender: Ref
     raise Reject("policy", f"unknown alg {alg!r}")
 
 
-def decrypt(token, resolver, sender_resolver=None, policy: str = "all", allow=None, inflate_limit: int = MAX_INFLATE) -> Result:
+def decrypt(token, resolver, sender_resolver=None, policy: str = "all", allow=None, inflate_limit: int = MAX_INFLATE,
+            strict_deflate: bool = False) -> Result:
     """policy 'all': every recipient must yield the CEK; 'any': at least one must.  In both
     cases all recovered CEKs must be equal."""
     try:
-        return _decrypt(token, resolver, sender_resolver, policy, allow, inflate_limit)
+        return _decrypt(token, resolver, sender_resolver, policy, allow, inflate_limit, strict_deflate)
     except Reject as r:
         return Result("REJECT", r.reason, r.klass)
 
 
-def _decrypt(token, resolver, sender_resolver, policy, allow, inflate_limit) -> Result:
+def _decrypt(token, resolver, sender_resolver, policy, allow, inflate_limit, strict_deflate=False) -> Result:
     if isinstance(token, (bytes, str)):
         if isinstance(token, bytes):
             try:
@@ -517,6 +518,8 @@ def _decrypt(token, resolver, sender_resolver, policy, allow, inflate_limit) -> 
             raise Reject("policy", "unknown zip")
         data = m
         try:
+            if data[:2] == b"\x78\x9c" and strict_deflate:
+                raise Reject("inner", "zip=DEF content carries a zlib header (RFC 7516 4.1.3 wants raw RFC 1951 DEFLATE)")
             if data[:2] == b"\x78\x9c":
                 import zlib
                 d = zlib.decompressobj()
